@@ -321,7 +321,8 @@ def forwarder(tree, debug):
     cmode = mode
     if mode == "overflowing" and proj == [".0"]:
         cmode = "wrapping"
-    elif mode == "checked" and expect_head and panic_cls and panic_cls.startswith("overflow"):
+    elif mode == "checked" and expect_head:
+        # expect(checked_x) is the strict form whatever the wording of the panic message
         cmode = "strict"
     elif mode == "plain" and stem in ARITH_STEMS:
         cmode = "strict" if debug else "wrapping"
@@ -365,7 +366,9 @@ def _distinct(fc, fs, debug):
             fc["head"], fc["mode"], fs["head"], fs["mode"])
     if fc["head"] != fs["head"] or fc["wraps"] != fs["wraps"] or len(fc["args"]) != len(fs["args"]):
         return None
-    if fc["panic"] and fs["panic"] and fc["panic"] != fs["panic"] and fc["expect_head"] == fs["expect_head"]:
+    if fc["panic"] and fs["panic"] and fc["panic"] != fs["panic"] and fc["expect_head"] == fs["expect_head"] \
+            and not fc["panic"].startswith(("other(", "dynamic", "diverges:")) \
+            and not fs["panic"].startswith(("other(", "dynamic", "diverges:")):
         return "different panic class: %s where the contract requires %s" % (fc["panic"], fs["panic"])
     if fc["args"] == fs["args"]:
         if bool(fc["guards"]) != bool(fs["guards"]) and not fc["expect_head"] and not fs["expect_head"]:
